@@ -355,6 +355,7 @@ fn start_watchdog(limit_s: u64) {
             let t = a.load(Ordering::Relaxed);
             if t != 0 && now > t && now - t > limit_s * 1000 {
                 out_line(&format!("INCONCLUSIVE: a single case ran longer than {} s (watchdog); no verdict", limit_s));
+                crate::props::c19::cleanup_tmp();
                 std::process::exit(2);
             }
         }
